@@ -141,6 +141,9 @@ def call_ext(I: Any, name: str, args: List[Term], kwargs: Dict[str, Term], st: A
             items = I.iter_items(a0, st, ctx, node)
             if items is not None and all(is_c(x) and isinstance(x[1], int) and 0 <= x[1] <= 255 for x in items):
                 return ("seq", "raw", (("L", bytes(x[1] for x in items).hex()),) if items else ())
+            if items is not None and items and all(isinstance(x, tuple) and x[:1] == ("uint",) and T.const_width(("seq", "s", x[1])) == 2 for x in items):
+                # bytes of integers that are themselves single bytes read from hex digits: those digits, in order
+                return T.seq("raw", tuple(a for x in items for a in x[1]))
             if items is not None and len(items) == 1 and is_int_term(items[0]) and not is_c(items[0]):
                 # bytes((x,)) is the single byte x (ValueError outside 0..255): as text its hex is '{:02x}'.format(x)
                 st.may_raise("ValueError", ("outofrange", items[0], c(0), c(255)), where)
@@ -395,6 +398,10 @@ def call_ext(I: Any, name: str, args: List[Term], kwargs: Dict[str, Term], st: A
             return top("next() of an empty iterator")
         return I.external_call(name, args, kwargs, st, ctx, node, awaited, opaque=True)
     if name == "builtins.reversed" and len(args) == 1 and not kwargs:
+        if _textlike(args[0]) and T.to_seq(args[0]) is not None and T.to_seq(args[0])[1] in ("raw", "b"):
+            r0 = reverse_value(I, args[0], st, ctx, node)
+            if not is_top(r0):
+                return ("revbytes", r0)
         items = I.iter_items(args[0], st, ctx, node)
         if items is not None:
             from .interp import HeapObj
